@@ -7,7 +7,7 @@ import stat
 from hypothesis import strategies as st
 
 from gen import basic as G
-from vlib import arch
+from vlib import arch, patches
 from vlib.runner import Check, Outcome
 
 import py7zr
@@ -23,10 +23,10 @@ def tree_strategy():
     name = st.one_of(st.sampled_from(SMALL), st.sampled_from(SMALL), st.sampled_from(PREFIXED), G.component(10, fs_safe=True))
     mtime = st.one_of(st.integers(1, 4102444800).map(lambda s: s * 10 ** 9), st.integers(10 ** 9, 4102444800 * 10 ** 9),
                       st.sampled_from([978307200 * 10 ** 9 + 123456700, 2147483648 * 10 ** 9 + 999999900, 86400 * 10 ** 9 + 100]))
-    leaf = st.fixed_dictionaries({"kind": st.just("file"), "name": name, "data": G.contents(3000), "mode": st.sampled_from(FILE_MODES), "mtime_ns": mtime})
+    leaf = st.fixed_dictionaries({"kind": st.just("file"), "name": name, "data": G.contents(3000), "mode": st.one_of(st.sampled_from(FILE_MODES), st.integers(0o400, 0o777)), "mtime_ns": mtime})
 
     def node(children):
-        return st.fixed_dictionaries({"kind": st.just("dir"), "name": name, "mode": st.sampled_from(DIR_MODES), "mtime_ns": mtime,
+        return st.fixed_dictionaries({"kind": st.just("dir"), "name": name, "mode": st.one_of(st.sampled_from(DIR_MODES), st.integers(0o500, 0o777).map(lambda m: m | 0o100)), "mtime_ns": mtime,
                                       "children": st.lists(children, min_size=0, max_size=4, unique_by=lambda c: c["name"])})
 
     tree = st.recursive(leaf, node, max_leaves=10)
@@ -40,6 +40,8 @@ def tree_strategy():
         "password": st.sampled_from([None, None, None, None, "pw"]),
         "entry": st.sampled_from(["writeall", "writeall", "writeall", "shutil"]),
         "source": st.sampled_from(["relative", "relative", "absolute"]),
+        # I/O block size of the writer (harness patch): files of a few KiB then span several blocks, as files over 1 MiB do by default
+        "block": st.sampled_from([None, None, 1024, 4096]),
     })
 
 
@@ -151,7 +153,7 @@ class C02(Check):
     technique = "Hypothesis-generated directory trees (recursive strategy) materialised on disk; lstat/readlink/read comparison of the source tree (dereferenced when requested) with the extracted tree"
     rule = ("tree of depth <= 5: directories (possibly empty), files (0..3000 bytes), up to 3 relative symlinks to existing files/directories "
             "(sideways, upward-but-inside), names from a small colliding alphabet {a,b,c,d} and from the Unicode component generator, file modes "
-            "over 11 values in 0o400..0o777, directory modes over 8 values in 0o500..0o777, mtimes 1970..2100 with nanosecond parts; x arcname "
+            "over all of 0o400..0o777 (every value enumerated once, sampled beyond), directory modes over 0o500..0o777, writer I/O block size default / 1 KiB / 4 KiB plus one real file over 1 MiB, mtimes 1970..2100 with nanosecond parts; x arcname "
             "None / 'given' / 'x/y' x dereference off/on x password None/'pw' x entry point writeall+extractall or pack_7zarchive+unpack_7zarchive "
             "x source addressed relatively (cwd = parent) or absolutely. Oracle: same relative path set (incl. empty directories), same kind, "
             "file bytes equal, link text equal, permission bits equal for files and directories, |mtime difference| <= 5 us; with dereference "
@@ -209,6 +211,23 @@ class C02(Check):
                         ti = [p for p, n in nodes].index(target)
                         yield {"root": root, "links": [{"at": at, "to": ti, "name": "current"}], "arcname": None, "dereference": deref, "password": None,
                                "entry": "writeall", "source": src}
+        # a file larger than the writer's real I/O block (1 MiB), with and without a password
+        for pw in (None, "pw"):
+            i += 1
+            if env.mine(i):
+                big = {"kind": "file", "name": "big.bin", "data": ["gen", "text", (1 << 20) + 5000, 7], "mode": 0o640, "mtime_ns": 10 ** 18 + 1500}
+                small = {"kind": "file", "name": "s", "data": ["hex", "00"], "mode": 0o600, "mtime_ns": 10 ** 18}
+                yield {"root": {"kind": "dir", "name": "root", "mode": 0o755, "mtime_ns": 10 ** 18, "children": [big, small]}, "links": [], "arcname": None,
+                       "dereference": False, "password": pw, "entry": "writeall", "source": "relative", "block": None}
+        # every combination of the nine permission bits that keeps the owner's read bit (files) - one tree of 16 files per batch
+        modes = list(range(0o400, 0o1000))
+        for b in range(0, len(modes), 16):
+            i += 1
+            if env.mine(i):
+                kids = [{"kind": "file", "name": "m%03o" % m, "data": ["hex", "6d"], "mode": m, "mtime_ns": 10 ** 18 + m} for m in modes[b:b + 16]]
+                dkids = [{"kind": "dir", "name": "d%03o" % (m | 0o500), "mode": (m | 0o500), "mtime_ns": 10 ** 18, "children": []} for m in modes[b:b + 16:4]]
+                yield {"root": {"kind": "dir", "name": "root", "mode": 0o755, "mtime_ns": 10 ** 18, "children": kids + dkids}, "links": [], "arcname": None,
+                       "dereference": False, "password": None, "entry": "writeall", "source": "relative", "block": None}
         i = 0
         for first in ("b", "z"):
             for src in ("relative", "absolute"):
@@ -221,7 +240,7 @@ class C02(Check):
     def execute(self, case, env):
         out = Outcome()
         env.state["k"] += 1
-        work = os.path.join(env.scratch, "c2-%d" % env.state["k"])
+        work = env.tmpdir("c2-")
         srcbase = os.path.join(work, "s")
         os.makedirs(srcbase)
         cwd = os.getcwd()
@@ -271,8 +290,9 @@ class C02(Check):
                 else:
                     pw = case["password"]
                     deref = case["dereference"]
-                    with py7zr.SevenZipFile(apath, "w", password=pw, dereference=deref) as z:
-                        z.writeall(src_arg, arcname)
+                    with patches.blocksize(case.get("block")):
+                        with py7zr.SevenZipFile(apath, "w", password=pw, dereference=deref) as z:
+                            z.writeall(src_arg, arcname)
             except Exception as e:
                 cls, frame = arch.exc_sig(e)
                 out.violate(dict(sig, kind="archive-raises", exc=cls, frame=frame), observed=repr(e)[:300], expected="tree archived")
